@@ -1792,3 +1792,4 @@ M("c10-multi-forcedelete-skips-name-check", ["C10"], {"C10": ["R10.10"]}, "backe
 
 # ---------------------------------------------------------------- F30
 REVERT("f30-revert-directory-is-not-a-key", ["C02"], {"C02": ["R02.9"]}, "0024-fix-deleting-a-key-that-is-only-a-directory-on-disk-.patch")
+REVERT("f31-revert-modtime-probe-exclusive", ["C10"], {"C10": ["R10.11"]}, "0025-fix-the-mod-time-probe-of-the-fs-backends-never-touc.patch")
